@@ -49,6 +49,9 @@ func c15Corpus(absTarget string) []string {
 		// parent references that only appear after one round of stripping, and
 		// ones followed by ordinary components
 		"....//x", "..././x", "....//....//x", ".../...//x", "..//x", "../sub/x", "../sibling/new", "a/../../sub/deep/x", "a/../../sibling/x", "./.././sub/x", "../a/b/c/d/x", "sub/../../work/x", ".../../../x",
+		// control characters beside or inside the dots (a reader that drops them
+		// after checking sees a parent reference)
+		"\x01../x", "sub/.\x02./.\x02./x", ".\x7f./x", "\x1f..\x1f/x", "a/\t../\t../x", "\n../x", "..\r/x", " \t ../x",
 		"ab\x00../x", "../x\x00tail", long, "../" + long, ".hidden", "..hidden", "...", "a/..", "a/../..", "a/.../x", " ../x", "../x ", "~/x", "$HOME/x",
 	}
 }
